@@ -8,4 +8,6 @@ import DafRel.Props.C03
 #print axioms DafRel.Props.C03.same_as_plain_application
 #print axioms DafRel.Props.C03.valid_operation_never_column_error
 #print axioms DafRel.Props.C03.join_backtracking_sound
+#print axioms DafRel.Props.C03.join_with_backtracking_sound
+#print axioms DafRel.Props.C03.join_with_backtracking_and_transfer_sound
 #print axioms DafRel.Props.C03.bridge_commute_used_by_backtracking
